@@ -167,7 +167,17 @@ func compareIntFloat(ra, rb reflect.Value) (c int, ok bool) {
 		return 0, false
 	case big || f < -(1<<63):
 		if big && f >= 1<<63 {
-			return 0, false // both beyond int64: the float64 comparison is as good as it gets
+			// both beyond int64: a float64 this large is a whole number
+			if f >= 1<<64 {
+				return -1, true
+			}
+			switch u, t := ra.Uint(), uint64(f); {
+			case u < t:
+				return -1, true
+			case u > t:
+				return 1, true
+			}
+			return 0, true
 		}
 		return 1, true
 	case f >= 1<<63:
